@@ -44,8 +44,13 @@ theorem compile_deterministic (st : St) (outs : List OutDecl) (m1 m2 : MirProg)
     (h1 : compile st outs = .ok m1) (h2 : compile st outs = .ok m2) : m1 = m2 := by
   rw [h1] at h2; injection h2
 
-/-- … and the trace is a function of the program: same commands, same store and registers. -/
-theorem trace_deterministic (m : Mach) (cs : List Cmd) : runCmds m cs = runCmds m cs := rfl
+/-- … and the trace is a function of the program: the machine reached after `cs₁ ++ cs₂` is the machine reached by
+running `cs₂` from where `cs₁` ended (no hidden state besides the machine). -/
+theorem runCmds_append (m : Mach) (cs₁ cs₂ : List Cmd) :
+    (runCmds m (cs₁ ++ cs₂)).1 = (runCmds (runCmds m cs₁).1 cs₂).1 := by
+  induction cs₁ generalizing m with
+  | nil => rfl
+  | cons c cs ih => simp only [List.cons_append, runCmds]; exact ih _
 
 example : cliMain ["compile.py", "prog.py"] (fun _ => .ok "{}") (fun _ => .error "x") = [.success "{}"] := by decide
 
